@@ -53,6 +53,7 @@ class CompiledTwin(Oracle):
         import torch._dynamo as dynamo
 
         dynamo.reset()
+        dynamo.utils.counters.clear()  # (reset() keeps the statistics counters: the graph count is per run, not per process)
         dynamo.config.cache_size_limit = 64
         self.tparams = [p.detach().clone().requires_grad_(True) for p in run.params]
         self.topt = spec.build_optimizer(run.trace, self.tparams)  # pt2 from the trace
